@@ -77,6 +77,19 @@ func runC28(c *Ctx) {
 		var fidObj types.Object
 		if len(res) == 1 && res[0] != "" {
 			fidObj = info.Defs[fd.Type.Results.List[0].Names[0]]
+		} else if len(res) == 1 {
+			// unnamed result: the one local every return statement returns (`fid := atomic.AddUint32(…); …; return fid`)
+			ast.Inspect(fd.Body, func(nd ast.Node) bool {
+				if _, isLit := nd.(*ast.FuncLit); isLit {
+					return false
+				}
+				if rs, ok := nd.(*ast.ReturnStmt); ok && len(rs.Results) == 1 {
+					if id, ok := unparen(rs.Results[0]).(*ast.Ident); ok {
+						fidObj = info.ObjectOf(id)
+					}
+				}
+				return true
+			})
 		}
 		defs := localDefs(info, fd)
 		fromAtomic := false
@@ -137,9 +150,12 @@ func runC28(c *Ctx) {
 						if i < len(as.Rhs) && isField(pinfo, as.Rhs[i], procT, "Id") {
 							okSrc = true
 						}
+						// under a test of the F_PARENT_VARTABLE bit that is known to have found it set (the test is
+						// recognised by what it computes — see flagBitTest — not by its text)
 						under := false
-						for _, g := range guardsAt(pinfo, stack) {
-							if g.Cond != nil && !g.Neg && strings.Contains(c.src(g.Cond), "F_PARENT_VARTABLE") {
+						fdefs := localDefs(pinfo, fd.Body)
+						for _, f := range factsOf(guardsAt(pinfo, stack)) {
+							if pol, ok := flagBitTest(pinfo, fdefs, f.E, c.forkFlagConsts()["F_PARENT_VARTABLE"]); ok && pol == f.True {
 								under = true
 							}
 						}
@@ -187,7 +203,8 @@ func runC28(c *Ctx) {
 			}
 			fs := factsOf(guardsAt(info, stack))
 			if len(fs) == 1 {
-				if se, isS := unparen(fs[0].E).(*ast.SelectorExpr); isS && se.Sel.Name == "fidRegistered" && fs[0].True {
+				// fork.fidRegistered, possibly named by a single-definition local
+				if se, isS := localDefs(info, fd.Body).resolve1(info, fs[0].E).(*ast.SelectorExpr); isS && se.Sel.Name == "fidRegistered" && fs[0].True {
 					ok = true
 				}
 			}
@@ -215,9 +232,11 @@ func runC28(c *Ctx) {
 	}
 	if fd, _ := c.MustFunc("R28c", "lang", "", "deregisterProcess"); fd != nil {
 		ok := false
+		ddefs := localDefs(info, fd.Body)
 		for _, call := range calls(fd.Body, true) {
 			if callIs(info, call, mx("lang"), "funcID", "Deregister") && len(call.Args) == 1 {
-				if se, isS := unparen(call.Args[0]).(*ast.SelectorExpr); isS && se.Sel.Name == "Id" {
+				// p.Id, possibly read into a single-definition local first (`fid := p.Id; go func() { … Deregister(fid) }`)
+				if se, isS := ddefs.resolve1(info, call.Args[0]).(*ast.SelectorExpr); isS && se.Sel.Name == "Id" {
 					if id, isI := se.X.(*ast.Ident); isI && isParam(info, fd, id) {
 						ok = true
 					}
@@ -252,8 +271,10 @@ func runC28(c *Ctx) {
 				if es, isE := s.(*ast.ExprStmt); isE {
 					if call, isC := es.X.(*ast.CallExpr); isC && callIs(info, call, mx("lang"), "funcID", "Register") {
 						regs++
-						// one of the next statements in the same list sets fidRegistered = true
-						for _, t := range list[i+1:] {
+						// a statement of the same list (same arm, before or after the call: the two are independent)
+						// sets fidRegistered = true
+						_ = i
+						for _, t := range list {
 							if as, isA := t.(*ast.AssignStmt); isA && len(as.Lhs) == 1 {
 								if se, isS := as.Lhs[0].(*ast.SelectorExpr); isS && se.Sel.Name == "fidRegistered" {
 									if b, isB := constBool(info, as.Rhs[0]); isB && b {
@@ -267,7 +288,7 @@ func runC28(c *Ctx) {
 			}
 			return true
 		})
-		c.Check(regs >= 3 && regs == flags, "R28c", "Fork:fidRegistered-pairs-Register", fd.Pos(), "every GlobalFIDs.Register in Process.Fork is followed by fidRegistered = true in the same arm (%d/%d)", flags, regs)
+		c.Check(regs >= 2 && regs == flags, "R28c", "Fork:fidRegistered-pairs-Register", fd.Pos(), "every GlobalFIDs.Register in Process.Fork is followed by fidRegistered = true in the same arm (%d/%d)", flags, regs)
 	}
 }
 
